@@ -99,10 +99,14 @@ def body_scaffold(case, rec):
         other = Scaffold("o", extra)
         def check_now(what):
             now = conv.plain_rows(s.rows)
-            again = conv.plain_rows(must(s.reverse, what=f"Scaffold.reverse after {what}").rows)
+            rev_now = must(s.reverse, what=f"Scaffold.reverse after {what}")
+            again = conv.plain_rows(rev_now.rows)
             want2 = [[r[0], r[1], r[2], r[3], -r[4], *r[5:]] if r[0] == "F" else list(r) for r in reversed(now)]
             if again != want2:
                 raise Violation(f"reversal after {what} does not reflect the current rows: {again} vs {want2}")
+            # (the length was read before the scaffold grew)
+            if not (rev_now.length == s.length == ref.rows_len(now)):
+                raise Violation(f"after {what}: reversal does not preserve the length: original reports {s.length}, reversed {rev_now.length}, rows total {ref.rows_len(now)}")
 
         s.append_scaffold(other, Gap(200, "scaffold") if case.get("with_gap") else None)
         check_now("append_scaffold")
